@@ -10,15 +10,26 @@ import io
 from lxml import etree
 
 KINDS = ["prefixes", "default_ns", "attr_order", "ws_between_children", "comments_pis", "cdata", "charrefs",
-         "encoding", "value_ws", "quotes"]
+         "encoding", "value_ws", "quotes", "comment_in_text", "qname_attrs"]
+XSI_TYPE = "{http://www.w3.org/2001/XMLSchema-instance}type"
 
 
 def infoset(xml_bytes):
+    """canonical infoset: comments and PIs dropped, the character data around them joined"""
     root = etree.fromstring(xml_bytes)
 
     def conv(e):
-        return [e.tag, sorted((k, v) for k, v in e.attrib.items()), e.text or "",
-                [conv(c) for c in e if isinstance(c.tag, str)], e.tail or ""]
+        text = e.text or ""
+        children = []
+        for c in e:
+            if isinstance(c.tag, str):
+                children.append(conv(c) + [c.tail or ""])
+            else:                               # comment / PI: its tail belongs to the surrounding text
+                if children:
+                    children[-1][-1] += c.tail or ""
+                else:
+                    text += c.tail or ""
+        return [e.tag, sorted((k, v) for k, v in e.attrib.items()), text, children]
     return conv(root)
 
 
@@ -128,6 +139,21 @@ def rewrite(xml_text, kinds, rng, element_only=None, pad_values=False):
         attrs = []
         for k, v in e.attrib.items():
             aq = etree.QName(k)
+            if k == XSI_TYPE and new_prefixes and "qname_attrs" in kinds:
+                # the value is a QName: spell it with the new prefixes (or unprefixed under the default namespace)
+                pfx, _, loc = v.strip().rpartition(":")
+                uri = e.nsmap.get(pfx or None)
+                if uri is None and not pfx:
+                    v = loc if not now_default else v      # stays unqualified only if no default namespace is in scope
+                elif uri is not None:
+                    if now_default == uri:
+                        v = loc
+                    else:
+                        p2 = prefix_for(uri)
+                        if cur_map.get(p2) != uri:
+                            decls.append((p2, uri))
+                            cur_map[p2] = uri
+                        v = p2 + ":" + loc
             if aq.namespace:
                 if aq.namespace == "http://www.w3.org/XML/1998/namespace":
                     p = "xml"
@@ -172,7 +198,11 @@ def rewrite(xml_text, kinds, rng, element_only=None, pad_values=False):
                 t = text
                 if pad_values and "value_ws" in kinds and not children:
                     t = rng.choice(["", " ", "\n", "\t "]) + t + rng.choice(["", " ", "\n"])
-                if "cdata" in kinds and rng.random() < 0.5:
+                if "comment_in_text" in kinds and len(t) >= 2 and rng.random() < 0.6:
+                    k = rng.randrange(1, len(t))
+                    out.append(_esc_text(t[:k], "charrefs" in kinds, rng) + rng.choice(["<!--x-->", "<?p?>"])
+                               + _esc_text(t[k:], "charrefs" in kinds, rng))
+                elif "cdata" in kinds and rng.random() < 0.5:
                     out.append(_cdata(t, rng))
                 else:
                     out.append(_esc_text(t, "charrefs" in kinds, rng))
